@@ -154,7 +154,8 @@ def _touch(t, i, axis):
 
 def accessor(r, t, other):
     k = r.choice(['nnz', 'data', 'iter', 'eq', 'sum', 'str', 'nonzero',
-                  'density', 'none'])
+                  'density', 'none', 'tsv-header-absent', 'tsv-header-present',
+                  'to_json', 'repr', 'min-max', 'to_dataframe'])
     if k == 'nnz':
         t.nnz
     elif k == 'data':
@@ -172,6 +173,27 @@ def accessor(r, t, other):
         list(t.nonzero())
     elif k == 'density':
         t.get_table_density()
+    elif k == 'tsv-header-absent':
+        # exporting a category that no observation has is still a read
+        t.to_tsv(header_key='no_such_category', header_value='x')
+    elif k == 'tsv-header-present':
+        md = t.metadata(axis='observation')
+        if md is not None:
+            key = sorted(md[0], key=str)[0]
+            t.to_tsv(header_key=key, header_value=str(key),
+                     metadata_formatter=str)
+    elif k == 'to_json':
+        t.to_json('acc')
+    elif k == 'repr':
+        repr(t)
+    elif k == 'min-max':
+        try:
+            t.min('sample')
+            t.max('observation')
+        except ValueError:
+            pass            # a vector without non-zero values
+    elif k == 'to_dataframe':
+        t.to_dataframe(dense=bool(r.random() < .5))
     return k
 
 
